@@ -57,7 +57,11 @@ class Node(BaseNode):
 
     @classmethod
     def load(cls, data: Any) -> Self:
-        new = fromjson(data)
+        # note: the classes of the package of the class asked for come first:
+        #   a grammar model must not be rebuilt with a node type that some
+        #   other grammar happened to call Token or Rule
+        package = cls.__module__.rpartition('.')[0] or cls.__module__
+        new = fromjson(data, package=package)
         assert isinstance(new, cls)
         return new
 
